@@ -4,7 +4,7 @@ import re
 import time
 
 from common import Rule, finish
-from hirtab import ANY, C, L, T, adt_variants, callees, candidates, top_match
+from hirtab import ANY, C, L, T, adt_variants, callees, callees_inlined, candidates, top_match
 from hirutil import find, strip, walk
 from mono import Mono
 
@@ -112,7 +112,7 @@ def run(facts, tier):
                 cls = ord_class(inner["arms"][cs[-1][0]]["body"]) if cs and cs[-1][1] == "sure" else "none"
                 if k == "nn":
                     body = inner["arms"][cs[-1][0]]["body"] if cs else {}
-                    calls = callees(body)
+                    calls = callees_inlined(facts, body)
                     nsort = sum(1 for c in calls if re.search(r"::sort_by_key$|::sort_by_cached_key$|::sort$|::sort_by$", c))
                     ncmp = sum(1 for c in calls if c.endswith("Iterator::cmp"))
                     ok = nsort >= 2 and ncmp >= 2 and any(c.endswith("then_with") or c.endswith("::then") for c in calls) and not extra
@@ -191,7 +191,7 @@ def run(facts, tier):
                     t3.violate(f"tag-dup/{a}", f"Hash for Val: tag {x} used for both {seen[x]} and {a}")
                 seen.setdefault(x, a)
         if "Obj" in arm_of:
-            cs_ = callees(m["arms"][arm_of["Obj"]]["body"])
+            cs_ = callees_inlined(facts, m["arms"][arm_of["Obj"]]["body"])
             if not any(re.search(r"::sort_by_key$|::sort_by$|::sort$|::sort_by_cached_key$", c) for c in cs_):
                 t3.violate("obj-sort", "objects are hashed in insertion order although objects differing only in insertion order are equal")
     # Num::hash tags
